@@ -42,7 +42,45 @@ def payload_of(S, tid):
     return None
 
 
+def cast_paths(S, o, status=None):
+    """walk the outcome tree: every guard must be a switch on discr(numcast(component)); yields (status, leaf) with
+    status = {component: True (cast succeeded) / False (cast failed)} as established on the path, or raises ValueError"""
+    status = dict(status or {})
+    k = o['k']
+    if k in ('ret', 'panic', 'top', 'cut'):
+        yield status, o
+        return
+    if k != 'switch':
+        raise ValueError('branch on %s' % S.show(o['c'])[:80])
+    nm = numcast_of(S, o['c'])
+    if nm is None:
+        raise ValueError('branch on %s' % S.show(o['c'])[:80])
+    vals = [int(v) for v, sub in o['arms']]
+    for v, sub in o['arms']:
+        v = int(v)
+        if v not in (0, 1):
+            raise ValueError('Option discriminant %d' % v)
+        st2 = dict(status)
+        if nm in st2 and st2[nm] != (v == 1):
+            continue            # contradicts an earlier outcome of the same cast: infeasible
+        st2[nm] = (v == 1)
+        yield from cast_paths(S, sub, st2)
+    if o['other'] is not None:
+        rest = [x for x in (0, 1) if x not in vals]
+        if len(rest) != 1:
+            raise ValueError('otherwise arm of a cast outcome with arms %s' % vals)
+        st2 = dict(status)
+        if not (nm in st2 and st2[nm] != (rest[0] == 1)):
+            st2[nm] = (rest[0] == 1)
+            yield from cast_paths(S, o['other'], st2)
+
+
 def check_cast(run, S, name, spec, kw):
+    """all-or-nothing and component-faithful, stated on the outcome tree itself: a Some leaf is reached only on paths
+    that established success of EVERY component cast and carries, in position i, the payload of the cast of source
+    component i; a None leaf is reached only on paths that established the failure of at least one component cast.
+    The tree is a partition of the inputs, so this is `None iff some component fails`.  (Early exit or convert-all-then-match,
+    the order of the casts, per-field code or map/closure: all the same to this rule.)"""
     kind = spec[1]
     r = run.use_root(S, name)
     if r is None:
@@ -51,49 +89,37 @@ def check_cast(run, S, name, spec, kw):
     where = r.get('span')
     key = '%s:%s' % (PROP, name)
     names = leafnames('a0', kind)
-    ls = ret_leaves(r['out'])
-    kinds = sorted({l['k'] for g_, l in ls})
+    try:
+        paths = list(cast_paths(S, r['out']))
+    except ValueError as ex:
+        run.ob(key + ':guards', False, rule='K5 guard pass-set', expected='branches only on the outcome of the scalar cast of a component', found=str(ex), where=where)
+        return
+    kinds = sorted({l['k'] for st_, l in paths})
     if not run.ob(key + ':total', kinds == ['ret'], rule='K5', expected='only Return leaves (no panic)', found=kinds, where=where):
         return
-    somes, nones = [], []
-    for guards, leaf in ls:
-        gs = []
-        ok = True
-        for kind_, tid, want in guards:
-            nm = numcast_of(S, tid) if kind_ == 'switch' else None
-            if nm is None or want not in (0, 1):
-                ok = False
-                break
-            gs.append((nm, want))
-        if not ok:
-            run.ob(key + ':guards', False, rule='K5 guard pass-set', expected='branches only on the outcome of the scalar cast of a component', found=[S.show(t)[:80] for k_, t, w in guards][:3], where=where)
-            return
-        (somes if leaf['v'].get('n') == 'Some' else nones).append((gs, leaf))
-    if not run.ob(key + ':one-some', len(somes) == 1, rule='K5 guard pass-set', expected='exactly one Some outcome', found=len(somes), where=where):
+    somes = [(st_, l) for st_, l in paths if l['v'].get('n') == 'Some']
+    nones = [(st_, l) for st_, l in paths if l['v'].get('n') == 'None']
+    run.ob(key + ':option', len(somes) + len(nones) == len(paths), rule='K5', expected='every leaf is Some(..) or None', found=len(paths) - len(somes) - len(nones), where=where)
+    if not run.ob(key + ':one-some', len(somes) >= 1, rule='K5 guard pass-set', expected='a Some outcome exists', found=len(somes), where=where):
         return
-    gs, leaf = somes[0]
-    ok = sorted(nm for nm, w in gs) == sorted(names) and all(w == 1 for nm, w in gs)
-    run.ob(key + ':some-guards', ok, rule='K5 guard pass-set', expected='Some only when the scalar cast of every one of the %d components succeeded' % len(names), found=gs, where=where)
-    vals = []
+    bad = [sorted(n_ for n_ in names if st_.get(n_) is not True) for st_, l in somes if any(st_.get(n_) is not True for n_ in names)]
+    run.ob(key + ':some-guards', not bad, rule='K5 guard pass-set', expected='Some only when the scalar cast of every one of the %d components succeeded' % len(names), found=bad[:3], where=where)
+    for si, (st_, leaf) in enumerate(somes):
+        vals = []
 
-    def walk(v):
-        if 'a' in v:
-            for x in v['a']:
-                walk(x)
-        else:
-            vals.append(v)
-    walk(leaf['v']['f'][0])
-    got = [payload_of(S, v['t']) if 't' in v else None for v in vals]
-    run.ob(key + ':positions', got == names, rule='K1 copy provenance', expected='component i of the result = scalar cast of component i of the source: %s' % names, found=got, where=where)
-    # None leaves: a prefix of successes followed by one failure; together they cover every component
-    failed = []
-    okn = True
-    for gs_n, lf in nones:
-        if not gs_n or gs_n[-1][1] != 0 or any(w != 1 for nm, w in gs_n[:-1]) or lf['v'].get('n') != 'None':
-            okn = False
-        else:
-            failed.append(gs_n[-1][0])
-    run.ob(key + ':none', okn and sorted(failed) == sorted(names), rule='K5 guard pass-set', expected='None exactly when some component fails to cast (one None outcome per component)', found=sorted(failed), where=where)
+        def walk(v):
+            if 'a' in v:
+                for x in v['a']:
+                    walk(x)
+            else:
+                vals.append(v)
+        walk(leaf['v']['f'][0])
+        got = [payload_of(S, v['t']) if 't' in v else None for v in vals]
+        run.ob(key + ':positions' + ('' if si == 0 else ':%d' % si), got == names, rule='K1 copy provenance', expected='component i of the result = scalar cast of component i of the source: %s' % names, found=got, where=where)
+    # None leaves: the path established that some component failed
+    badn = [dict(st_) for st_, l in nones if not any(st_.get(n_) is False for n_ in names)]
+    failed = sorted({n_ for st_, l in nones for n_ in names if st_.get(n_) is False})
+    run.ob(key + ':none', not badn and failed == sorted(names), rule='K5 guard pass-set', expected='None only when some component failed to cast, and a None outcome exists for the failure of each component', found=badn[:2] or failed, where=where)
 
 
 def run(tier):
@@ -104,7 +130,7 @@ def run(tier):
     run_specs(run, S, h, custom={'cast': check_cast})
     run.floor('roots', len(run.roots), 11)
     return run.finish(
-        explanation='For the 11 cast bodies (Vector1-4, Point1-3, Matrix2-4, Quaternion), generic in both scalar types: the outcome tree branches only on whether NumCast::from of a source component is Some; there is exactly one Some outcome, reached only when the cast of every component succeeded, whose component i is the payload of the cast of source component i; every other outcome is None and is reached exactly when the first failing component fails (one per component); no path panics. One summary covers all 12 x 12 scalar pairs by parametricity.',
+        explanation='For the 11 cast bodies (Vector1-4, Point1-3, Matrix2-4, Quaternion), generic in both scalar types: the outcome tree branches only on whether NumCast::from of a source component is Some; every Some outcome is reached only on paths that established success of the cast of every component, and its component i is the payload of the cast of source component i; every other outcome is None and is reached only on paths that established the failure of some component (the tree partitions the inputs, hence None iff some component fails); no path panics. One summary covers all 12 x 12 scalar pairs by parametricity.',
         trusted_base=['rustc nightly type checking / trait resolution / MIR construction', 'mirsum abstract interpreter (NumCast::from of a non-constant is an uninterpreted Option)', 'the scalar cast itself (num_traits) is trusted'],
         not_decided=['behaviour of the scalar cast (num_traits)'],
         exhaustive=True)
